@@ -6,6 +6,9 @@ package mapping_test
 //   yaml : P3 the same content as YAML gives the same struct (P0/P1 on the YAML result too)
 //   conf : P4 conf.LoadFromJsonBytes/LoadFromYamlBytes with respelled keys
 //   http : P5 httpc -> router -> httpx.Parse round trip (c05_http_test.go)
+//   minimal : enumerated regression inputs of the repaired defects (c05_minimal_test.go)
+// json, yaml and conf additionally unmarshal every accepted document a second time
+// after overwriting the first result in place (c05Repeat).
 
 import (
 	"fmt"
